@@ -98,7 +98,6 @@ def dmax_for(dims):
 
 def draw_state(ctx, rng, nprng, lattices, kinds=("rand", "rand", "circuit", "purif"), fams=None):
     """-> F, g, psi, frame, dense x, description"""
-    import yastn.tn.fpeps as fpeps
     for _ in range(100):
         F = PG.fam(*(rng.choice(fams) if fams else (rng.choice(PG.FERMIONIC) if rng.random() < 0.7 else rng.choice(PG.FAMILIES))))
         dims = rng.choice(lattices)
@@ -112,14 +111,13 @@ def draw_state(ctx, rng, nprng, lattices, kinds=("rand", "rand", "circuit", "pur
         dmax = dmax_for(dims)
         hist = []
         if kind == "rand":
-            psi = PG.random_peps(F, rng, g, anc="charged", nsec=min(dmax, rng.choice((2, 3))), dmax=1)
+            nsec, dsec = rng.choice([(n, d) for n, d in ((2, 1), (2, 1), (3, 1), (3, 1), (2, 2), (1, 2)) if n * d <= dmax])
+            psi = PG.random_peps(F, rng, g, anc="charged", nsec=nsec, dmax=dsec)
         else:
             if kind == "purif":
                 psi, _ = PG.product_purif_state(F, rng, nprng, g)
             else:
                 psi, _ = PG.product_vec_state(F, rng, nprng, g)
-            fr0 = R.PepsFrame(F.loc, psi)
-            used = set()
             bonds = list(g.bonds())
             rng.shuffle(bonds)
             for b in bonds[:rng.randint(1, len(bonds))]:
@@ -128,14 +126,12 @@ def draw_state(ctx, rng, nprng, lattices, kinds=("rand", "rand", "circuit", "pur
                     b = b[::-1]
                 gate, _M, lab = invertible_nn_gate(F, rng, nprng, b, max_rank=dmax)
                 psi.apply_gate_(gate)
-                used.add(frozenset(b))
                 hist.append(lab)
             for s in g.sites():
                 if rng.random() < 0.4:
                     gate, _M, lab = invertible_local_gate(F, rng, nprng, tuple(s))
                     psi.apply_gate_(gate)
                     hist.append(lab)
-            del fr0
         fr = R.PepsFrame(F.loc, psi)
         x = fr.dense(psi)
         if np.count_nonzero(np.abs(x) > 1e-14 * max(np.abs(x).max(), 1e-300)) < 2:
@@ -156,7 +152,7 @@ def draw_state(ctx, rng, nprng, lattices, kinds=("rand", "rand", "circuit", "pur
 def invertible_local_gate(F, rng, nprng, site):
     import yastn.tn.fpeps as fpeps
     o = F.cat
-    T, H = _hermitian(F, nprng, 1)
+    T, _H = _hermitian(F, nprng, 1)
     step = rng.uniform(0.1, 0.6) * rng.choice((1, 1j, np.exp(0.4j)))
     gate = fpeps.gates.gate_local_exp(step, o["I"], R.from_dense(F.cfg, T, [F.loc.leg, F.loc.leg.conj()]), site)
     return gate, R.gate_chain_dense(F.loc, gate.G), "local_exp"
@@ -369,7 +365,7 @@ def battery_bmps(ctx, idx, rng, nprng, lattices):
             if bd in out:
                 B.judge("measure_nn", [a, b], bd, out[bd])
     # ---- measure_2site
-    for dirn, ok, rng_full in (("v", has_lr, None), ("h", has_tb, None)):
+    for dirn, ok in (("v", has_lr), ("h", has_tb)):
         if not ok:
             continue
         for a, b in pairs:
